@@ -8,12 +8,13 @@ is_address_valid over all 65 536 16-bit values and None against an independent p
 import copy
 
 from .. import harness as H
-from ..engine import pmap
+from ..engine import pmap, cpu_guard, CpuHang
 from ..ref import netwire as NW
 from ..ref import route as R
 from ..sim import World, MS, HarnessError, Abort
 
 PID = "C15"
+CPU_BOUND_S = 20  # one update() normally needs a few ms of CPU time
 MC = 0o100
 DEFAULT = 0o4444
 RESERVED_MC = (0o100, 0o10, 0o1000)
@@ -234,10 +235,15 @@ def run_case(pack, role, lvl, payloads, mode="each"):
             return classes[idx_list[k]][1] if 0 <= k < len(idx_list) else cls
 
         try:
-            n.update()
+            with cpu_guard(CPU_BOUND_S):
+                n.update()
             res = "ok"
         except Abort:
             v("not-terminating", culprit(), "update() still running after %d ms of virtual time" % ((w.now - t0) // MS))
+            return "hang"
+        except CpuHang:
+            v("not-terminating", culprit(), "update() used %d s of CPU time without returning (virtual time advanced by %d ms)" % (
+                CPU_BOUND_S, (w.now - t0) // MS))
             return "hang"
         except HarnessError:
             raise
@@ -420,6 +426,80 @@ def w_pairs(item, rep):
     rep.part("pairs", cases=k)
 
 
+def frag_alphabet(a, seed):
+    """fragments of one stream (origin, frame id 7) that can complete a message, stray ones, a second stream and a
+    multicast stream: histories of depth 3 reach 'a message was completed, then another fragment arrives'"""
+    org = 0o3 if a != 0o3 else 0o4
+    other = 0o5
+    al = []
+    for t, res, n, fid, frm, to in ((148, 2, 24, 7, org, a), (148, 3, 24, 7, org, a), (149, 2, 24, 7, org, a), (149, 1, 24, 7, org, a),
+                                    (150, 65, 5, 7, org, a), (150, 131, 5, 7, org, a), (150, 0, 0, 7, org, a), (148, 2, 24, 8, org, a),
+                                    (150, 65, 5, 7, other, a), (65, 0, 6, 9, org, a), (148, 2, 24, 7, org, MC), (150, 66, 4, 7, org, MC)):
+        al.append(NW.pack_frame(frm, to, fid, t, res, H.pattern(n, seed, t + res)))
+    return al
+
+
+FRAG_ROLES_QUICK = (("network", 0), ("network", 2), ("network-relay", 1), ("mesh", 1), ("master", 0))
+
+
+def w_triples(item, rep):
+    role, lvl, env, first, seed = item
+    pack = build(role, lvl, env)
+    a = node_addr(role, lvl)
+    al = frag_alphabet(a, seed)
+    k = 0
+    for j in range(len(al)):
+        for l in range(len(al)):
+            for mode in ("each", "batch"):
+                ps = [al[first], al[j], al[l]]
+                viol, out, classes = run_case(pack, role, lvl, ps, mode)
+                k += 1
+                rep.outcome("triple:%s:%s" % (mode, out))
+                rep.nt("%s|triple|%d|%d|%d|%s|%s" % (role_tag(role, lvl), first, j, l, mode, out))
+                for sig, what in viol:
+                    rep.violation(sig, what, {"part": "triples", "role": role, "level": lvl, "env": env, "payloads": ps, "mode": mode})
+    rep.case(k)
+    rep.transitions += 3 * k
+    rep.traces += k
+    rep.states += k
+    rep.part("triples", cases=k)
+
+
+def w_dhcp_origins(item, rep):
+    """the master's address assignment works on the request's origin: every valid origin (every possible relaying
+    node, levels 0-4), the default address and ill-formed ones x node ids {new, leased elsewhere, leased there}"""
+    chunk, env, seed = item
+    pack = build("master", 0, env)
+    k = 0
+    for frm in chunk:
+        for nid in (9, MASTER_TABLE[1][0], 0):
+            for typ in (195, 197, 196, 198):
+                if typ != 195 and nid != 9:
+                    continue
+                body = {195: b"", 197: b"", 196: bytes([MASTER_TABLE[0][0]]), 198: bytes([MASTER_TABLE[1][1] & 0xFF, MASTER_TABLE[1][1] >> 8])}[typ]
+                raw = NW.pack_frame(frm, 0, 21, typ, nid, body)
+                viol, out, classes = run_case(pack, "master", 0, [raw])
+                k += 1
+                rep.outcome("origin:%s:%s" % (T_NAMES[typ], out))
+                rep.nt("master|origin|L%d|%s|%s|%d|%s" % (R.level(frm) if R.is_valid(frm) else 9, addr_shape(frm), T_NAMES[typ], nid, out))
+                for sig, what in viol:
+                    rep.violation(sig, what, {"part": "dhcp-origins", "role": "master", "level": 0, "env": env, "payloads": [raw], "mode": "each"})
+    rep.case(k)
+    rep.transitions += k
+    rep.traces += k
+    rep.states += k
+    rep.part("dhcp-origins", cases=k)
+
+
+def all_origins():
+    out = [0]
+    lvl = [0]
+    for depth in range(4):
+        lvl = [x | (d << (3 * depth)) for x in lvl for d in range(1, 6)]
+        out += lvl
+    return out + [DEFAULT, 0o20, 0o7, 0o11111, 0o100]
+
+
 def w_predicate(item, rep):
     lo, hi = item
     fn = H.m_structs.is_address_valid
@@ -504,6 +584,19 @@ def run(tier, seed, rep, only=None):
         pmap(w_raw, raw, rep)
     if not only or "pairs" in only:
         pmap(w_pairs, pairs, rep)
+    trip, orig = [], []
+    for role, lvl in (FRAG_ROLES_QUICK if tier == "quick" else [x for x in roles(tier) if x[0] != "routing"]):
+        for env in (("ack",) if tier == "quick" else ("ack", "silent")):
+            for first in range(len(frag_alphabet(0o2, seed))):
+                trip.append((role, lvl, env, first, seed))
+    ao = sorted(set(all_origins()))
+    for env in (("ack",) if tier == "quick" else ("ack", "silent")):
+        for i in range(0, len(ao), 25):
+            orig.append((ao[i:i + 25], env, seed))
+    if not only or "triples" in only:
+        pmap(w_triples, trip, rep)
+    if not only or "origins" in only:
+        pmap(w_dhcp_origins, orig, rep)
     H.reset_frame_ids()
     rl = roles(tier)
     rep.sample({"role": "network", "level": 4, "node": oct(ROLE_ADDR[4]), "destination classes": {k: [oct(x) for x in v] for k, v in dest_classes(ROLE_ADDR[4]).items()}})
@@ -519,7 +612,10 @@ def run(tier, seed, rep, only=None):
              "private deep copy, then update(); environments: next hop acknowledges / nobody answers (%s). Raw payloads of every length 1..7 "
              "and patterned payloads of every length 8..32; crafted mesh lookup/request/release/response payloads (known/unknown, truncated, "
              "oversized). E-BFS depth 2: every ordered pair over a %s-frame sub-alphabet, delivered one by one and both before one update(). "
-             "is_address_valid on all 65 536 values and None. states = distinct injected inputs, transitions = update() executions; "
+             "E-BFS depth 3 over a 12-fragment sub-alphabet (one stream that can complete a message, stray / foreign / multicast fragments) on the "
+             "nodes that re-assemble (quick: 5 of them). Master: address request / release / lookups from every valid origin address of levels 0-4 "
+             "(781), 0o4444 and ill-formed ones x node ids {new, leased, 0}. A single update() is also cut after 20 s of own CPU time (a loop that never "
+             "reaches a simulated-time call). is_address_valid on all 65 536 values and None. states = distinct injected inputs, transitions = update() executions; "
              "non-trivial = distinct (node, environment, frame class, reaction)."
              % (len(rl), "{0,1,2,3,8,24}" if tier == "quick" else "0..24",
                 "quick: destinations self / 0o100 with a valid origin at all lengths, forwarded destination classes at lengths {0,3,24}, invalid ones at {0,24}; every other origin class with destinations self / child / 0o100 at lengths 0 and 2; the relay / RF24Mesh-as-node variants on destinations self / child / 0o100 only" if tier == "quick" else "full destination x origin product; lengths 0..24 for destinations self / 0o100, {0,1,2,3,8,24} for the classes that are forwarded or dropped unparsed",
